@@ -427,6 +427,133 @@ fn oracle_w<W: Wd>(rng: &mut Rng, w: u32, iters: usize, rep: &mut Report) {
                 rep.sample("C20", || o.desc.clone());
             }
         }
+        // ------------------------------------------------------------------ views and copies behave like the original
+        {
+            let kind = rng.pick(&CUR_KINDS).0;
+            let writable = kind != "backend.cursor-slice" && kind != "backend.rev-cursor-slice";
+            let (init, _, _) = rand_cursor_init(rng, w);
+            let mut o = Obj::<W>::new(kind, w, &init).unwrap();
+            for _ in 0..(rng.next() % 4) {
+                let op = rand_op_parsed::<W>(rng, w, 1, 8);
+                o.op(op);
+            }
+            // the view is a forward cursor over the same words at the same position
+            let (_, buf0, pos0) = o.raw();
+            let vk = (rng.next() % 3) as u8;
+            let vname = ["as_view", "as_mut_view", "cloned"][vk as usize];
+            let prog_s = random_prog(rng, w, buf0.len());
+            let prog = parse_prog::<W>(&prog_s).unwrap();
+            // reference: the same program run step by step on a fresh forward cursor of the kind
+            // the view has (`&[W]` for as_view, writable otherwise)
+            let ref_kind = if vk == 0 { "backend.cursor-slice" } else { "backend.cursor-owned" };
+            let mut reference = Obj::<W>::new(ref_kind, w, &format!("at {} {:x}", show_list(buf0.clone()), pos0)).unwrap();
+            let mut expect: Vec<String> = Vec::new();
+            for sub in &prog {
+                expect.push(reference.op(sub.clone()));
+            }
+            let got = o.op(Op::View(vk, prog.clone()));
+            rep.count(&format!("C17.op.{}", vname));
+            if vk == 1 && !writable {
+                rep.eval("C17");
+                if got != UNSUP {
+                    rep.fail("C17", format!("{} => as_mut_view exists on a read-only buffer?", o.desc));
+                }
+            } else {
+                rep.eval("C17");
+                if got != show_outs(expect.clone()) {
+                    rep.fail("C17", format!("{} => the {} answered {} but a cursor at the same position answers {}", o.desc, vname, got, show_outs(expect)));
+                }
+                // afterwards: position untouched; words untouched unless written through `as_mut_view`,
+                // in which case the parent holds exactly what the view held at the end
+                let (_, buf1, pos1) = o.raw();
+                let (_, rbuf, _) = reference.raw();
+                rep.eval("C17");
+                let want = if vk == 1 { rbuf } else { buf0.clone() };
+                if pos1 != pos0 || buf1 != want {
+                    rep.fail("C17", format!("{} => after the {}: parent {:?}@{:x}, expected {:?}@{:x}", o.desc, vname, buf1, pos1, want, pos0));
+                }
+            }
+        }
+        // ------------------------------------------------------------------ constructors and conversion traits
+        {
+            let len = (rng.next() % 7) as usize;
+            let ws = gen_ws(rng, w, len);
+            let l = show_list(ws.clone());
+            let pos = rng.below(len as u128 + 2);
+            let rw = ["backend.cursor-owned", "backend.cursor-box", "backend.cursor-mut", "backend.rev-cursor", "backend.rev-cursor-box", "backend.rev-cursor-mut"];
+            let kind = *rng.pick(&rw);
+            // `new_at_pos_mut` / `new_at_write_end_mut` = `new_at_pos` / `new_at_write_end`
+            let a = Obj::<W>::new(kind, w, &format!("at_mut {} {:x}", l, pos)).map(|mut o| o.raw());
+            let b = Obj::<W>::new(kind, w, &format!("at {} {:x}", l, pos)).map(|mut o| o.raw());
+            rep.eval("C17");
+            rep.count("C17.op.new_at_pos_mut");
+            if a != b || a.is_some() != (pos <= len as u128) {
+                rep.fail("C17", format!("{} {:x} | at_mut {} {:x} => {:?} but new_at_pos gives {:?}", kind, w, l, pos, a, b));
+            }
+            let a = Obj::<W>::new(kind, w, &format!("end_mut {}", l)).map(|mut o| o.raw());
+            let b = Obj::<W>::new(kind, w, &format!("end {}", l)).map(|mut o| o.raw());
+            rep.eval("C17");
+            rep.count("C17.op.new_at_write_end_mut");
+            if a != b {
+                rep.fail("C17", format!("{} {:x} | end_mut {} => {:?} but new_at_write_end gives {:?}", kind, w, l, a, b));
+            }
+            // a cursor made through `new_at_pos_mut` writes into its buffer
+            if let Some(mut o) = Obj::<W>::new("backend.cursor-mut", w, &format!("at_mut {} {:x}", l, pos)) {
+                let x = gen_word(rng, w);
+                let r = o.op(Op::Write(wd(x)));
+                let (_, buf, p1) = o.raw();
+                rep.eval("C17");
+                let fits = (pos as usize) < len;
+                if (r == "ok") != fits || (fits && (buf[pos as usize] != x || p1 != pos + 1)) {
+                    rep.fail("C17", format!("{} => write through a new_at_pos_mut cursor did not land at the position", o.desc));
+                }
+            }
+            // conversion traits: Stack flavours = new_at_write_end (reads the buffer as a stack from
+            // its end), Queue flavours = new_at_write_beginning; the Seek flavours agree with them
+            let all_kinds: Vec<&str> = CUR_KINDS.iter().map(|k| k.0).collect();
+            let kind = *rng.pick(&all_kinds);
+            let slice_kind = kind.ends_with("slice");
+            for (conv, stack) in [("into_read_s", true), ("into_read_q", false), ("into_seek_read_s", true), ("into_seek_read_q", false),
+                                  ("as_read_s", true), ("as_read_q", false), ("as_seek_read_s", true), ("as_seek_read_q", false)] {
+                if conv.starts_with("as_") && !slice_kind {
+                    continue;
+                }
+                let mut o = match Obj::<W>::new(kind, w, &format!("{} {}", conv, l)) {
+                    Some(o) => o,
+                    None => {
+                        rep.fail("C17", format!("{} {:x} | {} {} => constructor missing", kind, w, conv, l));
+                        continue;
+                    }
+                };
+                rep.count(&format!("C17.op.{}", conv));
+                let want = Obj::<W>::new(kind, w, &format!("{} {}", if stack { "end" } else { "begin" }, l)).unwrap().raw();
+                rep.eval("C17");
+                if o.raw() != want {
+                    rep.fail("C17", format!("{} => differs from Cursor::new_at_write_{}", o.desc, if stack { "end" } else { "beginning" }));
+                }
+                // only for forward kinds the "stack from the end / queue from the start" reading applies directly
+                if !kind.contains("rev") {
+                    let mut expect: Vec<String> = if stack { ws.iter().rev().map(|&x| hex(x)).collect() } else { ws.iter().map(|&x| hex(x)).collect() };
+                    expect.push("none".into());
+                    let mut got = Vec::new();
+                    for _ in 0..=len {
+                        got.push(if stack { o.op(Op::ReadS) } else { o.op(Op::ReadQ) });
+                    }
+                    rep.eval("C17");
+                    if got != expect {
+                        rep.fail("C17", format!("{} => read {:?} expected {:?}", o.desc, got, expect));
+                    }
+                    // and it is seekable like any cursor
+                    if conv.contains("seek") {
+                        let q = rng.below(len as u128 + 2);
+                        rep.eval("C17");
+                        if (o.op(Op::Seek(q as usize)) == "ok") != (q <= len as u128) {
+                            rep.fail("C17", format!("{} => seek {:x} with len {:x}", o.desc, q, len));
+                        }
+                    }
+                }
+            }
+        }
         // ------------------------------------------------------------------ callbacks receive every word once, in order
         {
             let mut fa: Vec<u128> = (0..(rng.next() % 3)).map(|_| rng.below(10)).collect();
@@ -438,7 +565,12 @@ fn oracle_w<W: Wd>(rng: &mut Rng, w: u32, iters: usize, rep: &mut Report) {
             for _ in 0..(rng.next() % 8) {
                 if rng.chance(2, 3) {
                     let x = gen_word(rng, w);
-                    let r = o.op(Op::Write(wd(x)));
+                    // through the adapter, or by taking the callback out with `into_inner` and calling it
+                    let direct = rng.chance(1, 3);
+                    if direct {
+                        rep.count("C17.op.into_inner");
+                    }
+                    let r = if direct { o.op(Op::IntoInner(wd(x))) } else { o.op(Op::Write(wd(x))) };
                     let fails = fa.contains(&calls);
                     calls += 1;
                     rep.eval("C17");
